@@ -78,7 +78,7 @@ func runC18(c *eng.Ctx) {
 					}
 				}
 				_ = nilTest
-				reach := g.Reach(eng.Query{From: []*eng.GNode{waitNode}, AvoidEdge: func(e *eng.GEdge) bool {
+				reach := g.Reach(eng.Query{From: []*eng.GNode{waitNode}, NonNil: []types.Object{ev}, AvoidEdge: func(e *eng.GEdge) bool {
 					// take only the err != nil outcome of the first test of this variable
 					for _, fc := range g.EdgeFacts(e) {
 						x, y, eq, isEq := eng.EqAtom(fc)
